@@ -5,4 +5,5 @@ def main (args : List String) : IO UInt32 := do
   match args with
   | ["c19"] => Drv.pureLoop Drv.C19.step; return 0
   | ["c05"] => Drv.C05.main; return 0
+  | ["c04"] => Drv.C05.main; return 0
   | _ => IO.eprintln "usage: drv <model>"; return 2
